@@ -2,6 +2,7 @@ SPECIFICATION Spec
 INVARIANT Sane
 INVARIANT NoException
 INVARIANT CapturedIsEval
+INVARIANT DrivenPortsAreSignals
 INVARIANT PaddingIndependent
 INVARIANT CycleIsNextState
 INVARIANT XSound
